@@ -6,6 +6,28 @@ use crate::client::Knobs;
 use crate::entropy::{hash_str, mix, Rng};
 use crate::plan::*;
 
+/// C17 case index -> (history, boundary slot, paired operation)
+pub fn pair_case(i: u64) -> (u64, u64, u64) {
+    let op = i % 8;
+    let j = i / 8;
+    let hist = j % 24 + 24 * (j / (24 * 40));
+    let slot = (j / 24) % 40;
+    (hist, slot, op)
+}
+
+/// The plan of run `i` of property `prop` under master seed `master`.
+pub fn plan_for(master: u64, prop: &str, i: u64) -> Plan {
+    if prop == "C17" {
+        let (hist, slot, op) = pair_case(i);
+        let mut p = gen(prop, run_seed(master, prop, hist));
+        p.flags.push(format!("pair_slot={}", slot));
+        p.flags.push(format!("pair_op={}", op));
+        p
+    } else {
+        gen(prop, run_seed(master, prop, i))
+    }
+}
+
 pub fn run_seed(master: u64, prop: &str, i: u64) -> u64 {
     mix(&[master, hash_str(prop), i])
 }
@@ -212,6 +234,12 @@ pub fn gen(prop: &str, seed: u64) -> Plan {
         "C16" => gen_c16(seed),
         "C11" => gen_c11(seed),
         "C18" => gen_c18(seed),
+        "C17" => {
+            // histories with scripts, matched blocks, set_scripts during sync and reorgs
+            let mut p = if seed % 3 == 0 { gen("C04", seed) } else { gen("C09", seed) };
+            p.property = "C17".into();
+            p
+        }
         "C01" => gen_byz(seed, "C01"),
         "C02" => gen_byz(seed, "C02"),
         "C06" => gen_byz(seed, "C06"),
@@ -740,7 +768,30 @@ fn gen_c16(seed: u64) -> Plan {
             t += b.rng.range(500, 30_000);
         }
     }
-    b.plan.flags = vec!["honest".into(), "fetch".into(), "expect_converge".into()];
+    let mut flags: Vec<String> = vec!["honest".into(), "fetch".into(), "expect_converge".into()];
+    if !side && b.rng.chance(1, 4) {
+        // a real reorg while fetches are under way: requests that name the abandoned tip are
+        // answered with the new tip only
+        let back = b.rng.range(1, b.plan.knobs.last_n.min(6).max(1));
+        let n = back + b.rng.range(1, 3);
+        if b.plan.knobs.check_point_interval <= 2 * back + 2 {
+            b.plan.knobs.check_point_interval = 2000;
+        }
+        let t = b.rng.range(5_000, until.max(6_000));
+        add(&mut b.plan, t, Action::Fork { src: 0, back, n });
+        for p in 0..b.plan.peers.len() {
+            let at = t + b.rng.range(1, 15_000);
+            add(&mut b.plan, at, Action::SwitchBranch { peer: p, branch: 1 });
+        }
+        let mut tm = t + b.rng.range(10_000, 30_000);
+        while tm < until + 30_000 {
+            add(&mut b.plan, tm, Action::Mine { branch: 1, n: 1 });
+            tm += b.rng.range(15_000, 40_000);
+        }
+        flags.push("main=1".into());
+        flags.push("fork".into());
+    }
+    b.plan.flags = flags;
     finish(b, until, 200_000)
 }
 
@@ -820,7 +871,11 @@ fn gen_c18(seed: u64) -> Plan {
     let mut t = b.rng.range(10_000, until / 2);
     for _ in 0..n_sub {
         let mutation = if burst {
-            if b.rng.chance(9, 10) { 0 } else { b.rng.range(1, 14) as u8 }
+            match b.rng.below(20) {
+                0 => b.rng.range(1, 14) as u8,
+                1 | 2 => 20,
+                _ => 0,
+            }
         } else {
             match b.rng.below(10) {
                 0..=3 => 0,
